@@ -418,17 +418,20 @@ func namesToMap(c *Ctx, r *Report, rule string) {
 func c13FilterUses(c *Ctx, r *Report) {
 	fn := c.Method("lint", "registryImpl", "Filter")
 	seen := map[string]bool{}
-	for _, call := range callsTo(fn, "(*lint.registryImpl).lintNamesToMap") {
-		cv, _ := call.(*ssa.Call)
-		if cv == nil {
-			continue
+	// calls of lintNamesToMap in Filter or in helpers newer than the rules that Filter
+	// is split into (visited with the helper's parameters standing for Filter's arguments)
+	allInstrsDeep(fn, func(in ssa.Instruction) {
+		cv, _ := in.(*ssa.Call)
+		if cv == nil || staticCalleeName(&cv.Call) != "(*lint.registryImpl).lintNamesToMap" {
+			return
 		}
+		call := ssa.CallInstruction(cv)
 		arg := apath(call.Common().Args[1])
 		// the names must be validated against the registry being filtered itself,
 		// not against a narrowed or derived registry
-		if call.Common().Args[0] != ssa.Value(fn.Params[0]) {
+		if apath(call.Common().Args[0]) != fn.Params[0].Name() {
 			r.Bad("names-validated", "Filter|receiver|"+lastField(arg), call.Pos(), "Filter validates FilterOptions."+lastField(arg)+" against "+apath(call.Common().Args[0])+" instead of the registry being filtered: a name this registry lists can be rejected as unknown")
-			continue
+			return
 		}
 		// error component tested against nil with a return of (nil, err)
 		tested := false
@@ -444,7 +447,7 @@ func c13FilterUses(c *Ctx, r *Report) {
 								}
 								if ret, ok := errBlk.Instrs[len(errBlk.Instrs)-1].(*ssa.Return); ok {
 									rv := retVals(ret)
-									if len(rv) == 2 && rv[1] == ex {
+									if len(rv) >= 1 && rv[len(rv)-1] == ex {
 										tested = true
 									}
 								}
@@ -457,7 +460,7 @@ func c13FilterUses(c *Ctx, r *Report) {
 		if tested {
 			seen[lastField(arg)] = true
 		}
-	}
+	})
 	// every error Filter can return comes from name validation, the documented
 	// NameFilter/name-list conflict, or re-registration — in particular never from
 	// the source lists: every declared source is a valid selector even when no
@@ -479,6 +482,16 @@ func c13FilterUses(c *Ctx, r *Report) {
 			trace(x.Tuple, seenV)
 		case *ssa.Call:
 			if callee := x.Call.StaticCallee(); callee != nil {
+				if isNewFunc(callee) && len(callee.Blocks) > 0 {
+					// a helper newer than the rules: the errors it can return are Filter's
+					for _, ret := range returnsOf(callee) {
+						rv := retVals(ret)
+						if n := len(rv); n > 0 && strings.HasSuffix(rv[n-1].Type().String(), "error") {
+							trace(rv[n-1], seenV)
+						}
+					}
+					return
+				}
 				origins[fname(callee)] = x.Pos()
 			} else {
 				origins["<dynamic call>"] = x.Pos()
@@ -488,6 +501,10 @@ func c13FilterUses(c *Ctx, r *Report) {
 		case *ssa.ChangeInterface:
 			trace(x.X, seenV)
 		case *ssa.UnOp:
+			if g, ok := x.X.(*ssa.Global); ok && sentinelError(g) {
+				origins["errors.New"] = x.Pos() // a package-level sentinel made by errors.New / fmt.Errorf
+				return
+			}
 			origins["load "+apath(x.X)] = x.Pos()
 		default:
 			origins[fmt.Sprintf("%T", v)] = v.Pos()
@@ -561,4 +578,52 @@ func isBoolTyped(t *T) bool {
 	}
 	b, ok := t.Typ.Underlying().(*types.Basic)
 	return ok && b.Info()&types.IsBoolean != 0
+}
+
+// sentinelError: a package-level error variable of the module whose only store
+// is its initialiser errors.New(...) / fmt.Errorf(...).
+func sentinelError(g *ssa.Global) bool {
+	if g.Pkg == nil || !isModPkg(g.Pkg.Pkg) {
+		return false
+	}
+	initFn := g.Pkg.Func("init")
+	if initFn == nil {
+		return false
+	}
+	n, ok := 0, false
+	allInstrs(initFn, func(in ssa.Instruction) {
+		st, isSt := in.(*ssa.Store)
+		if !isSt || st.Addr != ssa.Value(g) {
+			return
+		}
+		n++
+		v := st.Val
+		if mi, isMI := v.(*ssa.MakeInterface); isMI {
+			v = mi.X
+		}
+		if call, isCall := v.(*ssa.Call); isCall {
+			switch staticCalleeName(&call.Call) {
+			case "errors.New", "fmt.Errorf":
+				ok = true
+			}
+		}
+	})
+	if n != 1 || !ok {
+		return false
+	}
+	// no other function stores to it
+	for _, m := range g.Pkg.Members {
+		if f, isF := m.(*ssa.Function); isF && f != initFn {
+			bad := false
+			allInstrs(f, func(in ssa.Instruction) {
+				if st, isSt := in.(*ssa.Store); isSt && st.Addr == ssa.Value(g) {
+					bad = true
+				}
+			})
+			if bad {
+				return false
+			}
+		}
+	}
+	return true
 }
